@@ -6,7 +6,7 @@ DtClasses == {"absent", "valid", "code0", "badb64", "badproto"}
 CErr == {"none", "valid", "nocode", "code_0", "code99", "notjson"}
 Bodies == {"good", "nomsg", "noterm", "empty", "garbage", "twomsgs"}
 Mk(p, k, st, ct, enc, hs, hd, ts, td, ce, b, cs) ==
-  [proto |-> p, kind |-> k, status |-> st, ctype |-> ct, enc |-> enc, hstatus |-> hs, hdetails |-> hd,
+  [gmsg |-> "nf", proto |-> p, kind |-> k, status |-> st, ctype |-> ct, enc |-> enc, hstatus |-> hs, hdetails |-> hd,
    tstatus |-> ts, tdetails |-> td, cerr |-> ce, body |-> b, casing |-> cs]
 \* non-200 heads
 InitA == \E p \in {"connect", "grpc", "grpcweb"}, k \in {"unary", "server", "client", "bidi"}, st \in Statuses \ {200},
@@ -23,7 +23,13 @@ InitC == \E p \in {"connect", "grpc", "grpcweb"}, k \in {"unary", "server", "cli
            /\ (p # "connect" => ce = "none")
            /\ (td # "absent" => ts = "5")
            /\ InitWith(Mk(p, k, 200, ct, enc, "absent", "absent", ts, td, ce, b, cs))
-MCInit == InitA \/ InitB \/ InitC
+\* a non-zero status whose grpc-message is not well-formed percent-encoding (in headers and in the terminator)
+InitD == \E p \in {"grpc", "grpcweb"}, k \in {"unary", "server", "client", "bidi"}, g \in {"badpct1", "badpct2", "badpct3"},
+            where \in {"header", "term"}, b \in {"good", "nomsg"} :
+           InitWith([Mk(p, k, 200, "match", "none", IF where = "header" THEN "5" ELSE "absent", "absent",
+                        IF where = "term" THEN "5" ELSE "absent", "absent", "none", IF where = "header" THEN "empty" ELSE b, "canon")
+                     EXCEPT !.gmsg = g])
+MCInit == InitA \/ InitB \/ InitC \/ InitD
 MCSpec == MCInit /\ [][Next]_vars
 GenSpec == MCInit /\ [][FALSE]_vars
 Emit == pc = "start" => PrintT(ToJson(sc))
